@@ -1,8 +1,205 @@
-From Codegen Require Import Codegen GenCodegenFacts.
+(** C07 -- Generated Python/TypeScript/Rust/Julia right-hand sides equal the model.
+
+    ONLY theorem statements (written out in full), each closed by [exact <lemma>] and followed by
+    [Print Assumptions].  All statements are about [gen_codegen_facts], the facts REGENERATED from
+    /repo/src/mxlpy/meta/codegen_model.py and sympy_tools.py on every run (templates of the four
+    languages, emission order, copy of the cached parameter dict, "every other statement is the
+    modelled one"); [C07_facts_pinned] is the obligation that breaks when any of them is edited.
+
+    Vocabulary (Codegen.v / CodegenSpec.v):  [generate F L m order free] is the model of
+    generate_model_code_<L>(m, free_parameters=free) ([order] = the dependency order held by the
+    model's cache, property C02); [exec F L p t y fv] is what running the emitted text in language
+    L does (a vector, or one of the failure classes the text can really produce);
+    [Resolved fsem m free fv t y e] says that [e] gives time, the state, the free parameters
+    their inputs, every other parameter the model's value, and satisfies the equation of every
+    derived quantity and reaction under the PYTHON meaning [fsem] of the functions;
+    [dxdt m e x] is the sum over the reactions (declaration order) of coefficient * rate.
+    [isem] is the meaning of the inlined target-language expression of a translated function;
+    hypothesis [C06] is property C06 (translation soundness).
+
+    FULL statement of the property (false of the code, see the [_refuted] theorems):
+      for every language L, model m, request free, state: generate = GOk p and
+      exec p t y fv = ROk [dxdt of every variable, declaration order].
+    Proved: [C07_equiv_partial] -- the same for every L <> Jl and every model with at least one
+    variable, every variable acted on by a reaction, no assignment-defined parameter (the
+    complement is exactly the recorded findings, each with a machine-checked witness below). *)
+From Coq Require Import List NArith QArith.
+From Codegen Require Import Codegen CodegenSpec GenCodegenFacts CgInst CodegenProofs CgInstProofs.
+Import ListNotations.
+
 Theorem C07_facts_pinned :
   gen_codegen_facts =
-  mkFacts (mkLF AsgName DsList RetBare false) (mkLF AsgName DsList RetBracket false)
+  mkFacts (mkLF AsgName DsList RetBracket false) (mkLF AsgName DsList RetBracket false)
           (mkLF AsgName DsList RetBracket true) (mkLF AsgLitK DsSplat RetBare true)
           OrdDep true true true true.
 Proof. vm_compute. reflexivity. Qed.
 Print Assumptions C07_facts_pinned.
+
+(** the generated Python / TypeScript / Rust function takes the variables in declaration order
+    and returns one derivative per variable in that order, equal to the model's right-hand side,
+    for every state, time and values of the free parameters *)
+Theorem C07_equiv_partial :
+  forall (V : Type) (vzero : V) (vadd vmul : V -> V -> V)
+         (isem : lang -> fnid -> list V -> option V) (translates : fnid -> bool)
+         (fsem : fnid -> list V -> option V),
+    (forall L f vs v, translates f = true -> fsem f vs = Some v -> isem L f vs = Some v) ->
+  forall (L : lang) (m : cmodel V) (order free : list name) (p : program V)
+         (t : V) (y fv : list V) (e : env V),
+    L <> Jl ->
+    generate V translates gen_codegen_facts L m order free = GOk p ->
+    NoDup (map fst (m_par m)) ->
+    NoAssignedParams V m -> EveryVariableHasReaction V m -> m_var m <> [] ->
+    CoefArgsKnown V m -> ValidOrder V m order ->
+    Resolved V fsem m free fv t y e ->
+    exists ds, map_opt (dxdt V vzero vadd vmul fsem m e) (m_var m) = Some ds
+               /\ exec V vzero vadd vmul isem gen_codegen_facts L p t y fv = ROk ds.
+Proof. exact (equiv_pinned gen_codegen_facts C07_facts_pinned). Qed.
+Print Assumptions C07_equiv_partial.
+
+(** generation succeeds (in all four languages) whenever every function translates and the free
+    names are distinct plain parameters *)
+Theorem C07_generates :
+  forall (V : Type) (translates : fnid -> bool) (L : lang) (m : cmodel V) (order free : list name),
+    NoDup (map fst (m_par m)) -> NoDup free -> incl free (map fst (base_params V m)) ->
+    (forall n f a, In (n, (f, a)) (m_der m) -> translates f = true) ->
+    (forall n f a st, In (n, (f, a, st)) (m_rxn m) ->
+       translates f = true /\ forall x g ga, In (x, CDyn g ga) st -> translates g = true) ->
+    exists p, generate V translates gen_codegen_facts L m order free = GOk p.
+Proof. exact (generates_pinned gen_codegen_facts C07_facts_pinned). Qed.
+Print Assumptions C07_generates.
+
+(** a function that cannot be translated -- of a derived quantity, of a reaction or of a computed
+    coefficient -- makes generation raise: no program is returned *)
+Theorem C07_untranslatable_raises :
+  forall (V : Type) (translates : fnid -> bool) (L : lang) (m : cmodel V) (order free : list name),
+    NoDup (map fst (m_der m) ++ map fst (m_rxn m)) ->
+    incl (map fst (m_der m) ++ map fst (m_rxn m)) order ->
+    (exists n f a, In (n, (f, a)) (m_der m) /\ translates f = false)
+    \/ (exists n f a st, In (n, (f, a, st)) (m_rxn m) /\ translates f = false)
+    \/ (exists n f a st x g ga, In (n, (f, a, st)) (m_rxn m) /\ In (x, CDyn g ga) st /\ translates g = false) ->
+    forall p, generate V translates gen_codegen_facts L m order free <> GOk p.
+Proof. exact (untranslatable_pinned gen_codegen_facts C07_facts_pinned). Qed.
+Print Assumptions C07_untranslatable_raises.
+
+(** generation leaves the model's cached parameter dict alone: the same request a second time on
+    the same model gives the same answer *)
+Theorem C07_second_request_same :
+  forall (V : Type) (translates : fnid -> bool) (L : lang) (m : cmodel V) (order free : list name),
+    cache_after V gen_codegen_facts m free = base_params V m
+    /\ generate_again V translates gen_codegen_facts L m order free
+       = generate V translates gen_codegen_facts L m order free.
+Proof. exact (again_pinned gen_codegen_facts C07_facts_pinned). Qed.
+Print Assumptions C07_second_request_same.
+
+(** ---- recorded findings (the code still behaves like this; known_findings.d/C07.json) ---- *)
+
+(** Julia: the template assigns every value to the name `k` and destructures with `*variables`:
+    for EVERY model with a variable the text is not a Julia program *)
+Theorem C07_jl_template_refuted :
+  forall (V : Type) (vzero : V) (vadd vmul : V -> V -> V)
+         (isem : lang -> fnid -> list V -> option V) (translates : fnid -> bool)
+         (m : cmodel V) (order free : list name) (p : program V) (t : V) (y fv : list V),
+    generate V translates gen_codegen_facts Jl m order free = GOk p -> m_var m <> [] ->
+    exec V vzero vadd vmul isem gen_codegen_facts Jl p t y fv = RIllFormed.
+Proof. exact (jl_illformed_pinned gen_codegen_facts C07_facts_pinned). Qed.
+Print Assumptions C07_jl_template_refuted.
+
+(** a variable without a reaction is dropped from the returned list: 1 value for 2 variables *)
+Theorem C07_variable_without_reaction_refuted :
+  exists p, generateQ gen_codegen_facts Ts w_uncovered [14%N] [] = GOk p
+            /\ optlist_eqb (spec_rhs w_uncovered [14%N] [] [] 0 [3; 5]) (Some [-6; 0]) = true
+            /\ outcome_eqb (execQ gen_codegen_facts Ts p 0 [3; 5] []) (ROk [-6]) = true.
+Proof. exact (uncovered_refuted gen_codegen_facts C07_facts_pinned). Qed.
+Print Assumptions C07_variable_without_reaction_refuted.
+
+(** a parameter defined by an initial assignment is not emitted: the program reads an unbound name *)
+Theorem C07_assigned_parameter_refuted :
+  exists p, generateQ gen_codegen_facts Py w_assigned [12%N; 14%N] [] = GOk p
+            /\ optlist_eqb (spec_rhs w_assigned [12%N; 14%N] [] [] 0 [3]) (Some [-12]) = true
+            /\ execQ gen_codegen_facts Py p 0 [3] [] = RErrUnbound.
+Proof. exact (assigned_refuted gen_codegen_facts C07_facts_pinned). Qed.
+Print Assumptions C07_assigned_parameter_refuted.
+
+(** a model without variables returns `[()]`: not TypeScript; a list holding a tuple in Python *)
+Theorem C07_no_variables_refuted :
+  exists p, generateQ gen_codegen_facts Ts w_novars [12%N] [] = GOk p
+            /\ optlist_eqb (spec_rhs w_novars [12%N] [] [] 0 []) (Some []) = true
+            /\ execQ gen_codegen_facts Ts p 0 [] [] = RIllFormed
+            /\ exists p', generateQ gen_codegen_facts Py w_novars [12%N] [] = GOk p'
+                          /\ execQ gen_codegen_facts Py p' 0 [] [] = RJunk.
+Proof. exact (novars_refuted gen_codegen_facts C07_facts_pinned). Qed.
+Print Assumptions C07_no_variables_refuted.
+
+(** ---- regression witnesses: with the facts of the snapshot (before fixes/C07-*.diff) the
+         property fails; the stored witnesses are replayed when a fact flips back ------------- *)
+
+(** derived quantities emitted in declaration order: a name is read before it is assigned *)
+Theorem C07_snapshot_declaration_order_refuted :
+  exists p, generateQ
+              (mkFacts (mkLF AsgName DsBare RetBare false) (mkLF AsgName DsList RetBracket false)
+                       (mkLF AsgName DsList RetBracket true) (mkLF AsgLitK DsSplat RetBare true)
+                       OrdDecl false true true true) Ts w_model w_order [11%N] = GOk p
+            /\ optlist_eqb (spec_rhs w_model w_order [11%N] [3] 1 [1; 2]) (Some [-32; 224]) = true
+            /\ execQ
+                 (mkFacts (mkLF AsgName DsBare RetBare false) (mkLF AsgName DsList RetBracket false)
+                          (mkLF AsgName DsList RetBracket true) (mkLF AsgLitK DsSplat RetBare true)
+                          OrdDecl false true true true) Ts p 1 [1; 2] [3] = RErrUnbound.
+Proof. exact snapshot_declaration_order_refuted. Qed.
+Print Assumptions C07_snapshot_declaration_order_refuted.
+
+(** free parameters popped from the model's cached dict: the second identical request raises *)
+Theorem C07_snapshot_cached_dict_refuted :
+  (exists p, generateQ
+               (mkFacts (mkLF AsgName DsBare RetBare false) (mkLF AsgName DsList RetBracket false)
+                        (mkLF AsgName DsList RetBracket true) (mkLF AsgLitK DsSplat RetBare true)
+                        OrdDecl false true true true) Ts w_inorder [14%N; 15%N] [11%N] = GOk p)
+  /\ cache_afterQ
+       (mkFacts (mkLF AsgName DsBare RetBare false) (mkLF AsgName DsList RetBracket false)
+                (mkLF AsgName DsList RetBracket true) (mkLF AsgLitK DsSplat RetBare true)
+                OrdDecl false true true true) w_inorder [11%N] = []
+  /\ generate_againQ
+       (mkFacts (mkLF AsgName DsBare RetBare false) (mkLF AsgName DsList RetBracket false)
+                (mkLF AsgName DsList RetBracket true) (mkLF AsgLitK DsSplat RetBare true)
+                OrdDecl false true true true) Ts w_inorder [14%N; 15%N] [11%N] = GErrKey.
+Proof. exact snapshot_cached_dict_refuted. Qed.
+Print Assumptions C07_snapshot_cached_dict_refuted.
+
+(** Python templates of the snapshot: `x = variables` binds the whole vector (TypeError on the
+    first use); a single derivative is returned as a bare number *)
+Theorem C07_snapshot_py_templates_refuted :
+  (exists p, generateQ
+               (mkFacts (mkLF AsgName DsBare RetBare false) (mkLF AsgName DsList RetBracket false)
+                        (mkLF AsgName DsList RetBracket true) (mkLF AsgLitK DsSplat RetBare true)
+                        OrdDecl false true true true) Py w_onevar [13%N] [] = GOk p
+             /\ optlist_eqb (spec_rhs w_onevar [13%N] [] [] 0 [3]) (Some [-6]) = true
+             /\ execQ
+                  (mkFacts (mkLF AsgName DsBare RetBare false) (mkLF AsgName DsList RetBracket false)
+                           (mkLF AsgName DsList RetBracket true) (mkLF AsgLitK DsSplat RetBare true)
+                           OrdDecl false true true true) Py p 0 [3] [] = RErrVec)
+  /\ (exists p, generateQ
+                  (mkFacts (mkLF AsgName DsBare RetBare false) (mkLF AsgName DsList RetBracket false)
+                           (mkLF AsgName DsList RetBracket true) (mkLF AsgLitK DsSplat RetBare true)
+                           OrdDecl false true true true) Py w_twovars_one_eq [14%N] [] = GOk p
+                /\ outcome_eqb
+                     (execQ
+                        (mkFacts (mkLF AsgName DsBare RetBare false) (mkLF AsgName DsList RetBracket false)
+                                 (mkLF AsgName DsList RetBracket true) (mkLF AsgLitK DsSplat RetBare true)
+                                 OrdDecl false true true true) Py p 0 [3; 5] [])
+                     (RScalar (-6)) = true).
+Proof. exact snapshot_py_templates_refuted. Qed.
+Print Assumptions C07_snapshot_py_templates_refuted.
+
+(** non-vacuity: a model with out-of-order derived quantities, a derived quantity reading a rate,
+    a computed coefficient and a free parameter meets every hypothesis of [C07_equiv_partial]
+    (rational instance; [isemQ] satisfies hypothesis C06 by [isemQ_C06]), and the three programs
+    return (-32, 224) at time 1, state (1, 2), free parameter 3 *)
+Example C07_nonvacuous :
+  NoDup (map fst (m_par w_model)) /\ NoAssignedParams Q w_model
+  /\ EveryVariableHasReaction Q w_model /\ m_var w_model <> []
+  /\ CoefArgsKnown Q w_model /\ ValidOrder Q w_model w_order
+  /\ Resolved Q fsemQ w_model [11%N] [3] 1 [1; 2] w_env
+  /\ (forall L, L <> Jl -> exists p,
+        generateQ gen_codegen_facts L w_model w_order [11%N] = GOk p
+        /\ outcome_eqb (execQ gen_codegen_facts L p 1 [1; 2] [3]) (ROk [-32; 224]) = true).
+Proof. exact (nonvacuous gen_codegen_facts C07_facts_pinned). Qed.
+Print Assumptions C07_nonvacuous.
